@@ -9,6 +9,7 @@ CONSTANTS
   FIX_DeferredReset = TRUE
   FIX_LocalRollback = TRUE
   FIX_DeleteAfter = FALSE
+  FIX_ValidateFirst = TRUE
   FIX_NotifyAfterCommit = FALSE
   DEV_HeadsOutsideTx = FALSE
   DEV_SpaceTwoTx = FALSE
